@@ -182,3 +182,26 @@ s("C06", "stat-index-prev", LF, "            self._r_stat[self.samples_since_res
 b(["C06"], "rates-reordered", LF, '        result["tpr"] = tp / (tp + fn)\n        result["tnr"] = tn / (tn + fp)', '        result["tnr"] = tn / (fp + tn)\n        result["tpr"] = tp / (fn + tp)')
 b(["C06", "C16"], "writer-temp", LF, "self._confusion[y_p][y_t] += 1", "row = y_p\n        self._confusion[row][y_t] += 1")
 b(["C06", "C17"], "percentile-rewrite", LF, "q=100 - (warning_level * 100))", "q=100 * (1 - warning_level))")
+
+# ---------------------------------------------------------------- C07
+s("C07", "bins-ceil", HDMF, "            self._bins = int(np.floor(np.sqrt(self.reference_n)))", "            self._bins = int(np.ceil(np.sqrt(self.reference_n)))", "FRM")
+s("C07", "mins-reference-only", HDMF, "            mins.append(np.concatenate((reference_variable, test_variable)).min())", "            mins.append(reference_variable.min())", "AGREE-support")
+s("C07", "epsilon-no-abs", HDMF, "current_epsilon = abs(self.current_distance - self._prev_distance) * 1.0", "current_epsilon = (self.current_distance - self._prev_distance) * 1.0", "FRM")
+s("C07", "drift-ge", HDMF, "                if current_epsilon > self.beta:", "                if current_epsilon >= self.beta:", "GRD")
+s("C07", "tstat-alpha-half", HDMF, "                1 - (self.significance / 2), self.reference_n + test_n - 2", "                (self.significance / 2), self.reference_n + test_n - 2", "FRM")
+s("C07", "hellinger-lengths-swapped", HDMF, "                np.sqrt(test_density[b] / t_length)\n                - np.sqrt(reference_density[b] / r_length)", "                np.sqrt(test_density[b] / r_length)\n                - np.sqrt(reference_density[b] / r_length)", "FRM")
+s("C07", "distance-no-average", HDMF, "self.current_distance = (1 / self._input_col_dim) * total_distance", "self.current_distance = total_distance", "FRM")
+s("C07", "beta-minus", HDMF, "            beta = epsilon_hat + self.significance * stdev", "            beta = epsilon_hat - self.significance * stdev", "FRM")
+s("C07", "drift-block-appends", HDMF, "                    self._drift_state = \"drift\"\n                    self.reference = X\n", "                    self._drift_state = \"drift\"\n                    self.reference = pd.concat([self.reference, X])\n", None)
+s("C07", "test-hist-own-range", HDMF, "        test_density = self._build_histograms(X, mins, maxes)", "        test_density = self._build_histograms(X, [X.iloc[:, f].min() for f in range(self._input_col_dim)], maxes)", "AGREE-support")
+s("C07", "hist-default-bins", HDMF, "                bins=self._bins,\n                range=(min_values[f], max_values[f]),", "                bins=10,\n                range=(min_values[f], max_values[f]),", "FRM")
+s("C07", "stdev-unscaled", HDMF, "        stdev = np.sqrt(total_stdev / (d_scale))", "        stdev = np.sqrt(total_stdev)", "FRM")
+s("C07", "epsilon-hat-last", HDMF, "        self.total_epsilon += self.epsilon[-2]", "        self.total_epsilon += self.epsilon[-1]", "FRM")
+s("C07", "feature-info-argmin", HDMF, "                                max(self.feature_epsilons)", "                                min(self.feature_epsilons)", "FRM")
+s("C07", "hellinger-skip-last-bin", HDMF, "        for b in range(self._bins):\n            f_distance += (", "        for b in range(self._bins - 1):\n            f_distance += (", "FRM")
+s("C07", "distance-wrong-feature", HDMF, "                self._reference_density[f], test_density[f]\n", "                self._reference_density[0], test_density[f]\n", "FRM")
+s("C07", "cdbd-uses-hellinger", DD + "cdbd.py", '        divergence="KL",\n        detect_batch=1,', '        divergence="H",\n        detect_batch=1,', None)
+s("C07", "kl-selects-hellinger", HDMF, '        elif divergence == "KL":\n            self.distance_function = self._KL_divergence', '        elif divergence == "KL":\n            self.distance_function = self._hellinger_distance', "TAB")
+b(["C07", "C17"], "hellinger-square-rewrite", HDMF, "                np.sqrt(test_density[b] / t_length)\n                - np.sqrt(reference_density[b] / r_length)\n            ) ** 2", "                np.sqrt(reference_density[b] / r_length)\n                - np.sqrt(test_density[b] / t_length)\n            ) ** 2")
+b(["C07", "C17"], "beta-reassoc", HDMF, "beta = epsilon_hat + t_stat * (stdev / np.sqrt(d_scale))", "beta = t_stat * stdev / np.sqrt(d_scale) + epsilon_hat")
+b(["C07"], "avg-divide", HDMF, "self.current_distance = (1 / self._input_col_dim) * total_distance", "self.current_distance = total_distance / self._input_col_dim")
